@@ -41,8 +41,13 @@ theorem sub_trans {a b c : DataType} (h1 : sub a b) (h2 : sub b c) : sub a c := 
 
 /-! ## generated-table obligations (G1–G3), re-checked on every run against the tables extracted from /repo -/
 
+theorem atomic_of_bit {t : Nat} (h : (List.range 8).any (fun i => t == 2 ^ i) = true) : Atomic t := by
+  obtain ⟨i, _, hi⟩ := List.any_eq_true.1 h
+  rw [eq_of_beq hi]; exact atomic_two_pow i
+
 theorem G1_atoms : Atomic T.BOOL ∧ Atomic T.NUMBER ∧ Atomic T.STRING ∧ Atomic T.ARRAY ∧ Atomic T.RANGE ∧ Atomic T.SET ∧ Atomic T.MESSAGE :=
-  ⟨atomic_two_pow 0, atomic_two_pow 1, atomic_two_pow 2, atomic_two_pow 3, atomic_two_pow 4, atomic_two_pow 5, atomic_two_pow 6⟩
+  ⟨atomic_of_bit (by decide), atomic_of_bit (by decide), atomic_of_bit (by decide), atomic_of_bit (by decide), atomic_of_bit (by decide),
+   atomic_of_bit (by decide), atomic_of_bit (by decide)⟩
 
 theorem atomic_of_isBase {t : DataType} (h : isBase t = true) : Atomic t := by
   simp only [isBase, Bool.or_eq_true, beq_iff_eq] at h
